@@ -19,6 +19,17 @@ SYS_RULE = ("sys traces: a real server App and 1..3 real client Apps (MinimalPlu
 
 LOCK = "Model vs implementation (all sys-based properties): the Lean models of the server (Model/Server.lean) and of every client (Model/Client.lean) are driven by the same operations; after every server frame each section of each real update message and the union of the real mutate messages are compared with what the model sends (as multisets; iteration order is not modelled), and after every client frame the client's real entity map, components, confirmed ticks, ServerUpdateTick and acknowledgements are compared with the model client. "
 
+EVT_RULE = ("Profile sys_evt: the sys set-up with five server event types (ordered, mapped, independent, trigger with target, unreliable) and three client event types "
+            "(ordered, mapped, trigger) registered; histories add `sev` / `cev` emissions in every send mode between arbitrary frames, clients that connect, authorize "
+            "(AuthMethod::None/Custom/ProtocolCheck) and disconnect at arbitrary points, a dedicated-server phase (app built without the client-side plugins), singleplayer "
+            "phases (events emitted by apps that are not connected / not running), per-channel delivery delays that let events overtake several update messages, "
+            "and a quiescent flush. Every app's game logic logs what it observes (event readers and observers, with ServerUpdateTick and the resolved entity). "
+            "Model vs implementation for events (verdict EVT): (L1) after every server frame the events handed to the transport per client and channel (payload id and stamp, in order) "
+            "are compared with Evt.SrvEv.frame driven by the same emissions / connects / stops and the server model's client ticks; (L3) after every client frame the events handed to "
+            "the game per event type are compared with Evt.receive over the model queue, the messages delivered since the last frame, the observed ServerUpdateTick and the client "
+            "model's entity map (Evt.resolveRefs); (L4) after every frame of every app the client events put on the wire and re-emitted locally are compared with Evt.CBuf.frame, "
+            "where Bevy's event-buffer ageing (Events::update runs only after a FixedUpdate) is the one nondeterministic input: the model must match for some ageing choice. ")
+
 PROPS = {
     "C01": {
         "modules": ["Replicon.Props.C01"],
@@ -71,6 +82,71 @@ PROPS = {
             "postcard encodings of the harness's component types; the models are compared with the real apps on every message and every client frame",
         ],
         "assumptions": ['partial: update_is_diff for every reachable server state is not proved as one theorem; per-section theorems + exact correspondence + oracle.'],
+    },
+    "C04": {
+        "modules": ["Replicon.Props.C04"],
+        "theorems": [
+            "Replicon.C04.C04_stamp",
+            "Replicon.C04.C04_update_tick_moves",
+            "Replicon.C04.C04_gate",
+            "Replicon.C04.C04_applied_before_delivery",
+            "Replicon.C04.C04_refs_resolve",
+            "Replicon.C04.C04_refs_refused",
+            "Replicon.C04.C04_end_to_end_partial",
+        ],
+        "profiles": [{"name": "sys_evt", "shards": {"thorough": 8}}],
+        "rule": SYS_RULE + LOCK + EVT_RULE + "For C04: oracle on the implementation: whenever a client's game logic observes a dependent event, the stamp that event carried on the wire for that client is <= the client's ServerUpdateTick at that moment, and the entity a mapped event / trigger target resolved to is the client's entity for the server entity the event was sent for.",
+        "trusted_extra": [
+            "modelled, not verified: Bevy ECS (change detection as one logical clock, iteration orders as multisets, required components, observers), Bevy's Events<E> double buffer and its ageing schedule (a nondeterministic input of the model), "
+            "postcard encodings of the harness's event types, the transport (ordered reliable channels deliver once and in order: the harness is the network); RepliconTick wrap-around inside the client event queue is not modelled",
+        ],
+        "assumptions": ["partial: the composition over the joint server/transport/client state machine with several clients is not one theorem (C04_end_to_end_partial names the proved part; C04_applied_before_delivery is the single-client composition); it is covered by the oracle and the L1/L3 lock step."],
+    },
+    "C05": {
+        "modules": ["Replicon.Props.C05"],
+        "theorems": [
+            "Replicon.C05.C05_recipients",
+            "Replicon.C05.C05_modes",
+            "Replicon.C05.C05_recipients_independent",
+            "Replicon.C05.C05_once_per_client",
+            "Replicon.C05.C05_server_order",
+            "Replicon.C05.C05_not_again",
+            "Replicon.C05.C05_late_joiner",
+            "Replicon.C05.C05_not_running",
+            "Replicon.C05.C05_client_exactly_once",
+            "Replicon.C05.C05_client_order",
+            "Replicon.C05.C05_queue_sorted",
+            "Replicon.C05.C05_client_event_once",
+            "Replicon.C05.C05_sender_identity",
+        ],
+        "profiles": [{"name": "sys_evt", "shards": {"thorough": 8}}],
+        "rule": SYS_RULE + LOCK + EVT_RULE + "For C05: oracles on the implementation: nothing is observed twice by the same receiver; nothing is observed that nobody sent; a server event reaches only clients its mode selects, only clients whose session started before the server frame that sent it; after the quiescent flush every ordered event sent while the session was up (client authorized at emission, session never cut) was observed exactly once by each intended client and every client event by the server; per receiver and type the observation order is the sending order; client events arrive with the emitter's identity and the entity the emitter referenced.",
+        "trusted_extra": [
+            "modelled, not verified: Bevy ECS (change detection as one logical clock, iteration orders as multisets, required components, observers), Bevy's Events<E> double buffer and its ageing schedule (a nondeterministic input of the model), "
+            "postcard encodings of the harness's event types, the transport (ordered reliable channels deliver once and in order: the harness is the network); RepliconTick wrap-around inside the client event queue is not modelled",
+        ],
+        "assumptions": ["The theorems are per side (server buffer, client queue, client send cursor); the transport's exactly-once/in-order delivery on ordered channels is an assumption about the backend (checked for the example backend by C12). A client that connects between an event's emission and the server frame that reads it counts as connected before the event was sent (the event is sent in that frame)."],
+    },
+    "C13": {
+        "modules": ["Replicon.Props.C13"],
+        "theorems": [
+            "Replicon.C13.C13_conditions_exclusive",
+            "Replicon.C13.C13_one_path_per_frame",
+            "Replicon.C13.C13_no_network_without_connection",
+            "Replicon.C13.C13_never_twice_on_a_path",
+            "Replicon.C13.C13_both_paths_F13",
+            "Replicon.C13.C13_one_path_partial",
+            "Replicon.C13.C13_singleplayer",
+            "Replicon.C13.C13_local_server_events",
+            "Replicon.C13.C13_local_recipient",
+        ],
+        "profiles": [{"name": "sys_evt", "shards": {"thorough": 8}}],
+        "rule": SYS_RULE + LOCK + EVT_RULE + "For C13: oracles on the implementation: a server event is observed by the local game iff the local server is among its recipients (exactly once after the flush; a dedicated server is only required not to observe twice); an event the local game sends towards the server is observed by server-side logic with the SERVER identity when the app is not connected; a client app observes its own client event locally only if it never went on the wire (otherwise: known finding F13); nothing is observed twice.",
+        "trusted_extra": [
+            "modelled, not verified: Bevy ECS (change detection as one logical clock, iteration orders as multisets, required components, observers), Bevy's Events<E> double buffer and its ageing schedule (a nondeterministic input of the model), "
+            "postcard encodings of the harness's event types, the transport (ordered reliable channels deliver once and in order: the harness is the network); RepliconTick wrap-around inside the client event queue is not modelled",
+        ],
+        "assumptions": ["The full statement is false for the code as it is (known finding F13): C13_both_paths_F13 is the machine-checked witness, C13_one_path_partial the statement under the hypothesis NoStale that F13 violates."],
     },
     "C07": {
         "modules": ["Replicon.Props.C07"],
@@ -332,6 +408,24 @@ MANIFEST_TEXT = {
         "design_ref": "DESIGN.md §7 C03",
         "note": 'partial: update_is_diff for every reachable server state is not proved as one theorem; per-section theorems + exact correspondence + oracle.',
         "technique": "Lean 4 proof (per-run theorems about executable server/client protocol models) + lock-step model/implementation correspondence on real traces + property oracle on the implementation",
+    },
+    "C04": {
+        "text": "Lean theorems about the event model: a dependent event goes out stamped with the receiving client's update tick (C04_stamp), which send_replication moves exactly when it sends an update message (C04_update_tick_moves); the client hands an event to the game only when its stamp is not ahead of ServerUpdateTick and queues it otherwise (C04_gate); for any sequence of update messages applied in order, passing the gate implies every update message up to the stamp has been applied (C04_applied_before_delivery); references resolve through the entity map or the event is refused (C04_refs_resolve, C04_refs_refused).",
+        "design_ref": "DESIGN.md §7 C04",
+        "note": "partial: the multi-client joint state machine is covered by the oracle on the implementation and the lock step, not by one theorem.",
+        "technique": "Lean 4 proof (theorems about executable models of the event buffers, queues and run conditions) + lock-step model/implementation correspondence on real traces + property oracle on the implementation",
+    },
+    "C05": {
+        "text": "Lean theorems about the event model: recipients of a dependent event are exactly the connected, authorized, not-excluded clients the mode selects (C05_recipients, C05_modes), of an independent one every selected connected client (C05_recipients_independent); one message per client and event, in buffering order (C05_once_per_client, C05_server_order); a flush leaves nothing to send again (C05_not_again); a client that connected after buffering never gets the event, whatever happens later (C05_late_joiner); the client queue loses and duplicates nothing and keeps arrival order (C05_client_exactly_once, C05_client_order, C05_queue_sorted); a client event goes on the wire at most once over any history, in emission order (C05_client_event_once); the sender identity is the transport's (C05_sender_identity).",
+        "design_ref": "DESIGN.md §7 C05",
+        "note": "Transport behaviour (exactly once, in order on ordered channels) is an assumption checked for the example backend by C12.",
+        "technique": "Lean 4 proof (theorems about executable models of the event buffers, queues and run conditions) + lock-step model/implementation correspondence on real traces + property oracle on the implementation",
+    },
+    "C13": {
+        "text": "Lean theorems about the event model: the run conditions of send and resend_locally are exclusive, so one path per frame (C13_conditions_exclusive, C13_one_path_per_frame); nothing goes on the network without a connection (C13_no_network_without_connection); over any history nothing is sent twice or re-emitted locally twice (C13_never_twice_on_a_path); the machine-checked F13 witness that one event can take both paths across a disconnect (C13_both_paths_F13) and the exactly-one-path theorem under the hypothesis it violates (C13_one_path_partial); singleplayer handles every event locally once (C13_singleplayer); a server event is re-emitted locally exactly when the local server is a recipient (C13_local_server_events, C13_local_recipient).",
+        "design_ref": "DESIGN.md §7 C13",
+        "note": "Known finding F13 is reported, tagged by the trace checker.",
+        "technique": "Lean 4 proof (theorems about executable models of the event buffers, queues and run conditions) + lock-step model/implementation correspondence on real traces + property oracle on the implementation",
     },
     "C07": {
         "text": 'Lean theorems about the server model: a replication run produces output only for authorized clients (C07_unauthorized_silent); a freshly authorized client is sent every non-hidden replicated entity whole (C07_full_state_on_authorization, C07_authorize_fresh); check_protocol authorizes exactly on equal hashes and otherwise notifies and requests a disconnect (C07_protocol_check). Events for unauthorized clients are part of the event model (C04/C05).',
